@@ -41,7 +41,7 @@ var Native = Variant{Name: "native"}
 var Small = Variant{Name: "small", Consts: map[string]map[string]string{
 	"internal/hashmap": {"defaultMinMapTableLen": "2", "minBucketsPerGoroutine": "1"},
 	"internal/lossy":   {"bufferSize": "4"},
-	".":                {"writeBufferRetries": "2"},
+	".":                {"writeBufferRetries": "2", "queueTransferThreshold": "2"},
 }}
 
 var Variants = map[string]Variant{"native": Native, "small": Small}
